@@ -153,6 +153,48 @@ where
     if agree { s } else { format!("ENTRYPOINT-DISAGREES {} // {}", s, s2) }
 }
 
+/// The heap allocation requests made by ε-copy deserialization of the payload (the header check,
+/// which reads the type name into a String, is outside the measured window).
+pub fn alloc_obs<D: Deserialize + TypeHash + AlignHash>(placed: &[u8]) -> String {
+    let res = catch_unwind(AssertUnwindSafe(|| {
+        let mut b = SliceWithPos::new(placed);
+        if deser::check_header::<D>(&mut b).is_err() {
+            return None;
+        }
+        let (r, n, bytes, sizes) = crate::alloc::measure(|| D::_deserialize_eps_inner(&mut b));
+        let ok = r.is_ok();
+        drop(r);
+        if ok { Some((n, bytes, sizes)) } else { None }
+    }));
+    match res {
+        Ok(Some((n, bytes, sizes))) => format!(
+            "calls={:x} bytes={:x} sizes={}",
+            n,
+            bytes,
+            sizes.iter().map(|x| format!("{:x}", x)).collect::<Vec<_>>().join(",")
+        ),
+        Ok(None) => "none".into(),
+        Err(_) => "PANIC".into(),
+    }
+}
+
+/// The ε-copy type of `D` as rustc sees it against the type `E` predicted from the definition.
+pub fn dty_case<D: Deserialize, E: ?Sized>(cid: &str, ops: &[String], out: &mut String)
+where
+    for<'a> DeserType<'a, D>: Sized,
+{
+    if !ops.iter().any(|o| o == "dty") {
+        return;
+    }
+    let actual = core::any::type_name::<DeserType<'static, D>>();
+    let expected = core::any::type_name::<E>();
+    if actual == expected {
+        out.push_str(&format!("{} dty same\n", cid));
+    } else {
+        out.push_str(&format!("{} dty DIFF actual={} expected={}\n", cid, actual.replace(' ', ""), expected.replace(' ', "")));
+    }
+}
+
 /// A hasher that records every byte it is fed.
 #[derive(Default)]
 pub struct RecHasher(pub Vec<u8>);
@@ -415,6 +457,13 @@ where
                     out.push_str(&format!("{} eps:{} {}\n", cid, arg, eps_obs::<D>(placed)));
                 }
             }
+            "alloc" => {
+                if let Some(b) = &bytes {
+                    let r = usize::from_str_radix(arg, 16).unwrap();
+                    let placed = arena.place(r, b);
+                    out.push_str(&format!("{} alloc:{} {}\n", cid, arg, alloc_obs::<D>(placed)));
+                }
+            }
             "schema" => {
                 // the plain and the recording serialization of the SAME object (padding bytes of a
                 // fresh object are unspecified); iterator wrappers are consumed, so for them a
@@ -643,6 +692,7 @@ where
             }
             "load" => {} // handled by loaders::load_case, called by the generated code
             "cross" => {} // handled by cross_case, called by the generated code after run_case
+            "dty" => {} // handled by dty_case, called by the generated code
             _ => panic!("unknown op {}", op),
         }
     }
